@@ -1,6 +1,6 @@
 import MxModel.Struct.Namespace
 import MxModel.Generated.Tables
-import MxModel.Proofs.StructMechCor
+import MxModel.Proofs.StructMechLive
 /-!
 # C12 – the visible namespace equals the containers, with the documented precedence
 
@@ -142,55 +142,80 @@ theorem reachable_containers_disjoint (kw : List String) (ops : List Op) (q : Pa
   rw [hd.cr q n h1] at h2
   cases h2
 
-/-- `kindOf` (what a name is in the namespace of a space) is therefore well defined: it does not
-depend on the order in which the containers are searched -/
+/-- `kindOf` (what a name is in the namespace of a space, searched in the code's order cells,
+references - own and model-level -, child spaces) in every reachable state: the containers of the
+space are disjoint, so the order only matters where a *model-level* reference is involved - it is
+shadowed by a cells of the name, and it shadows a child space of the name (`global_may_shadow_child`) -/
 theorem kind_well_defined (kw : List String) (ops : List Op) (q : Path) (n : String) :
     ((St.run kw {} ops).kindOf q n = some .cells ↔ ((St.run kw {} ops).mem .cells q n).isSome = true) ∧
-    ((St.run kw {} ops).kindOf q n = some .space ↔ n ∈ (St.run kw {} ops).childNames q) := by
+    ((St.run kw {} ops).kindOf q n = some .ref ↔
+      (St.run kw {} ops).mem .cells q n = none ∧
+        (((St.run kw {} ops).mem .refs q n).isSome = true ∨ n ∈ (St.run kw {} ops).globals)) ∧
+    ((St.run kw {} ops).kindOf q n = some .space ↔
+      n ∈ (St.run kw {} ops).childNames q ∧ n ∉ (St.run kw {} ops).globals) ∧
+    ((St.run kw {} ops).kindOf q n = none ↔
+      (St.run kw {} ops).mem .cells q n = none ∧ (St.run kw {} ops).mem .refs q n = none ∧
+        n ∉ (St.run kw {} ops).childNames q ∧ n ∉ (St.run kw {} ops).globals) := by
   have hd := (run_inv kw ops).disj
   generalize St.run kw {} ops = st at hd
+  have hchild := hd.child q n
   unfold St.kindOf
-  constructor
-  · constructor
-    · intro h
-      split at h
-      · assumption
-      · split at h
-        · cases h
-        · split at h <;> cases h
-    · intro h; simp [h]
-  · constructor
-    · intro h
-      split at h
-      · cases h
-      · split at h
-        · rename_i hc; simpa using hc
-        · split at h <;> cases h
-    · intro h
-      have := (hd.child q n h).1
-      simp [this, h]
+  cases hc : st.mem .cells q n with
+  | some m =>
+    have : n ∉ st.childNames q := fun h => by rw [(hchild h).1] at hc; cases hc
+    simp [this]
+  | none =>
+    cases hr : st.mem .refs q n with
+    | some m =>
+      have : n ∉ st.childNames q := fun h => by rw [(hchild h).2] at hr; cases hr
+      simp [this]
+    | none =>
+      by_cases hg : n ∈ st.globals
+      · simp [hg]
+      · by_cases hch : n ∈ st.childNames q
+        · simp [hg, hch]
+        · simp [hg, hch]
 
 /-- what is *not* an invariant (and not claimed): a model-level reference may bear the name of a
 member of a space – `ModelImpl.set_attr` checks top-level spaces only; the space-level name wins -/
 theorem global_may_shadow_member :
-    let st := St.run [] {} [.newSpace [] "A" [], .newCells ["A"] "x" 1, .setGlobal "x"]
+    let st := St.run [] {} [.newSpace [] "A" [] [], .newCells ["A"] "x" "x" 1, .setGlobal "x"]
     "x" ∈ st.globals ∧ (st.mem .cells ["A"] "x").isSome = true ∧ st.kindOf ["A"] "x" = some .cells := by
+  decide
+
+/-- ... and a model-level reference may bear the name of a child space of a *nested* space
+(`setGlobal` looks at top-level spaces only): the namespace of the space then resolves the name to the
+reference, the child space cannot be reached by name from its parent.  The property's "space-level
+names take precedence" holds for cells and own references, not for child spaces. -/
+theorem global_may_shadow_child :
+    let st := St.run [] {} [.newSpace [] "A" [] [], .newSpace ["A"] "K" [] [], .setGlobal "K"]
+    "K" ∈ st.globals ∧ "K" ∈ st.childNames ["A"] ∧ st.kindOf ["A"] "K" = some .ref := by
   decide
 
 /-! Non-vacuity: requests for a second kind of thing of one name are refused – in the space itself,
 from a base (a cells `x` in a base of a space with reference `x`), through `addBases`, and the
 case repaired by 8550727 (a reference named like a child space, with a model-level reference). -/
 def clashOps : List Op := [
-  .newSpace [] "A" [], .newSpace [] "B" [["A"]], .setRef ["B"] "x" 1, .newSpace ["A"] "y" [],
-  .newSpace [] "C" [], .newCells ["C"] "x" 2, .setGlobal "y"]
+  .newSpace [] "A" [] [], .newSpace [] "B" [["A"]] [], .setRef ["B"] "x" 1, .newSpace ["A"] "y" [] [],
+  .newSpace [] "C" [] [], .newCells ["C"] "x" "x" 2, .setGlobal "y"]
 
-example : ((St.run [] {} clashOps).step [] (.newCells ["B"] "x" 3)).2 = false := by decide
-example : ((St.run [] {} clashOps).step [] (.newCells ["A"] "x" 3)).2 = false := by decide
+example : ((St.run [] {} clashOps).step [] (.newCells ["B"] "x" "x" 3)).2 = false := by decide
+example : ((St.run [] {} clashOps).step [] (.newCells ["A"] "x" "x" 3)).2 = false := by decide
 example : ((St.run [] {} clashOps).step [] (.addBases ["B"] [["C"]])).2 = false := by decide
 example : ((St.run [] {} clashOps).step [] (.setRef ["A"] "y" 3)).2 = false := by decide
-example : ((St.run [] {} clashOps).step [] (.newCells ["A"] "z" 3)).2 = true := by decide
-example : (St.run [] {} (clashOps ++ [.newCells ["A"] "z" 3])).mem .cells ["B"] "z"
+example : ((St.run [] {} clashOps).step [] (.newCells ["A"] "z" "z" 3)).2 = true := by decide
+example : (St.run [] {} (clashOps ++ [.newCells ["A"] "z" "z" 3])).mem .cells ["B"] "z"
     = some { derived := true, payload := 3 } := by decide
+
+/-! references handed to `new_space(refs=...)`: refused as a whole when a name is that of a cells the
+new space derives (`C` has the cells `x`) or not a valid name; an own reference overrides an inherited
+one and may bear the name of a model-level reference -/
+example : ((St.run [] {} clashOps).step [] (.newSpace [] "S" [["C"]] [("x", 1)])).2 = false := by decide
+example : ((St.run [] {} clashOps).step [] (.newSpace [] "S" [["C"]] [("w", 1), ("x", 1)])).1.has ["S"] = false := by decide
+example : ((St.run ["for"] {} clashOps).step ["for"] (.newSpace [] "S" [] [("for", 1)])).2 = false := by decide
+example : ((St.run [] {} clashOps).step [] (.newSpace [] "S" [] [("_a", 1)])).2 = false := by decide
+example : (St.run [] {} (clashOps ++ [.newSpace [] "S" [["B"]] [("x", 7), ("y", 8)]])).mem .refs ["S"] "x"
+    = some { derived := false, payload := 7 } := by decide
 
 end mechanism
 
